@@ -54,7 +54,21 @@ def sonar_results():
     return {"h.json": json.dumps({"hotspots": hs}).encode()}
 
 
-def job(pipeline, faults):
+_TCLS = {}
+
+
+def _transformer_name(cm):
+    """Class name of the first transformer of codemod `cm` (raise-type faults are delivered to it only)."""
+    if cm not in _TCLS:
+        drive.init_inproc()
+        from codemodder import registry
+
+        c = next(c for c in registry.load_registered_codemods().codemods if c.id == cm)
+        _TCLS[cm] = c.transformer.transformers[0].__name__
+    return _TCLS[cm]
+
+
+def job(pipeline, faults, only_second=False):
     """faults: tuple of (position, fault kind)"""
     cm, _ = PIPELINES[pipeline]
     files = {f: good_src(pipeline) for f in FILES}
@@ -62,9 +76,13 @@ def job(pipeline, faults):
     for pos, kind in faults:
         if kind in CONTENT_FAULTS:
             files[FILES[pos]] = CONTENT_FAULTS[kind](good_src(pipeline))
-        else:
-            plan["faults"].append(dict(INJECTED[kind], file=FILES[pos].split("/")[-1]))
-    argv = ["{dir}", "--codemod-include", f"{cm},{K2}"]
+        elif not only_second:
+            spec = dict(INJECTED[kind], file=FILES[pos].split("/")[-1])
+            if spec["kind"] != "delete-before":
+                # the transformer of the first codemod raises; the second codemod must process the file normally
+                spec["only_transformer"] = _transformer_name(cm)
+            plan["faults"].append(spec)
+    argv = ["{dir}", "--codemod-include", K2 if only_second else f"{cm},{K2}"]
     results = {}
     if pipeline == "sonar":
         argv += ["--sonar-hotspots-json", "{res:h.json}"]
@@ -96,7 +114,7 @@ def _unfixed(report, cm):
     return []
 
 
-def judge(pipeline, faults, base, obs):
+def judge(pipeline, faults, base, obs, second_alone=None):
     cm, _ = PIPELINES[pipeline]
     kinds = "+".join(sorted({k for _, k in faults}))
     sig = lambda v: f"{pipeline}|{kinds}|{v}"
@@ -117,7 +135,14 @@ def judge(pipeline, faults, base, obs):
     fired = {f for f, _ in obs.extra.get("faults_fired", [])}
     for f, kind in faulted.items():
         vanished = kind == "vanish-before-transform"
-        if not vanished and obs.final.get(f) != obs.before.get(f):
+        raise_only_first = kind in INJECTED and not vanished
+        if raise_only_first:
+            # only the first codemod's transformer failed: the file must end exactly as if the second codemod alone had run
+            if second_alone is not None and obs.final.get(f) != second_alone.final.get(f):
+                out.append((sig("later-codemod-outcome-differs-on-faulted-file"), f"{f}: the first codemod failed on it ({kind}); the following codemod should leave it as when run alone: {obs.final.get(f)!r:.150} vs {second_alone.final.get(f)!r:.150}"))
+            if f in _failed(obs.report, K2):
+                out.append((sig("later-codemod-lists-file-as-failed"), f"{f}: only the first codemod failed on it ({kind}) but {K2} lists it as failed too"))
+        elif not vanished and obs.final.get(f) != obs.before.get(f):
             out.append((sig("faulted-file-modified"), f"{f} ({kind}) was modified: {obs.before.get(f)!r:.120} -> {obs.final.get(f)!r:.120}"))
         if kind == "empty-file":
             continue
@@ -145,12 +170,13 @@ def eval_cfg(cfg):
     pipeline, faults = cfg
     base = drive.run_inproc(job(pipeline, ()))
     obs = drive.run_inproc(job(pipeline, faults))
-    for o in (base, obs):
+    second = drive.run_inproc(job(pipeline, faults, only_second=True))
+    for o in (base, obs, second):
         if o.error:
             raise core.HarnessError(o.error)
     if base.exit != 0 or any(base.final[f] == base.before[f] for f in FILES):
         raise core.HarnessError(f"fault-free run of {pipeline} is not a usable reference (exit {base.exit})")
-    return [s for s in judge(pipeline, faults, base, obs)]
+    return [s for s in judge(pipeline, faults, base, obs, second)]
 
 
 def configs(tier):
@@ -199,7 +225,7 @@ def explore(tier, seed):
         if sig in known_open:
             violations.append(Violation(PROP, sig, f"{cfg}: {detail}"[:600], {"pipeline": cfg[0], "faults": [list(f) for f in cfg[1]], "sig": sig}, len(cfg[1])))
     coverage = {
-        "evaluations": 2 * len(cfgs),
+        "evaluations": 3 * len(cfgs),
         "distinct_nontrivial": len(set(cfgs)),
         "rule": "case = (pipeline kind, set of (file position, fault kind)); every case runs the faulted project and its fault-free twin through the real run() with a second codemod after the faulted one; all cases inject at least one fault, so all are non-trivial",
         "samples": [{"pipeline": c[0], "faults": [[FILES[p], k] for p, k in c[1]]} for c in (cfgs[0], cfgs[len(cfgs) // 2], cfgs[-1])],
